@@ -75,7 +75,7 @@ func Gen(rt *rapid.T, run *ev.Run, nInputs int, nullableHeavy bool) *Case {
 		}
 		if p.HasRecursion() && rapid.IntRange(0, 5).Draw(rt, "long") == 0 {
 			// one long sentence: deep stacks, lists of hundreds of elements
-			if w := cfggen.LongSentence(rt, p, rapid.IntRange(150, 700).Draw(rt, "longlen")); len(w) >= 100 && len(w) <= 3000 {
+			if w := cfggen.LongSentence(rt, p, rapid.IntRange(150, 700).Draw(rt, "longlen")); len(w) >= 100 && len(w) <= 1500 {
 				c.Inputs = append(c.Inputs, w)
 				run.Class("gen:long-sentence")
 			}
